@@ -54,19 +54,20 @@ def _inc(item: str) -> str:
 
 
 ATLAS_REGIONS: Dict[str, Tuple[str, str, str, str]] = {
-    # field: (file, start, end, kind)
+    # field: (file, start anchor, end anchor, kind); anchors are code, never comments; the start is its first
+    # occurrence, the end its last occurrence ("first:" prefix: first occurrence after the start)
     "body_includes": ("query.cxx", '#include "xAODRootAccess/tools/TFileAccessTracer.h"\n', "#include <TTree.h>", "include"),
     "header_includes": ("query.h", "#include <AnaAlgorithm/AnaAlgorithm.h>\n", "class query : public EL::AnaAlgorithm", "include"),
-    "private_members": ("query.h", "private:\n  // Class level variables\n", "};\n\n#endif", "line"),
-    "instance_initialization": ("query.cxx", ": EL::AnaAlgorithm (name, pSvcLocator)", "{\n  // Here you put any code for the base initialization", "init"),
+    "private_members": ("query.h", "private:\n", "};\n\n#endif", "line"),
+    "instance_initialization": ("query.cxx", ": EL::AnaAlgorithm (name, pSvcLocator)", "first:\n{\n", "init"),
     "ctor_lines": ("query.cxx", "xAOD::TFileAccessTracer::enableDataSubmission(false);\n", "}\n\nStatusCode query :: initialize ()", "line"),
-    "initialize_lines": ("query.cxx", "// connected.\n", "return StatusCode::SUCCESS;\n}\n\nStatusCode query :: execute ()", "line"),
+    "initialize_lines": ("query.cxx", "StatusCode query :: initialize ()\n{\n", "return StatusCode::SUCCESS;\n}\n\nStatusCode query :: execute ()", "line"),
     "link_libraries": ("package_CMakeLists.txt", "LINK_LIBRARIES AnaAlgorithmLib ", ")\n\nif (XAOD_STANDALONE)", "lib"),
 }
 CMS_REGIONS: Dict[str, Tuple[str, str, str, str]] = {
-    "body_includes": ("Analyzer.cc", "// extra headers\n", '#include "TTree.h"', "include"),
+    "body_includes": ("Analyzer.cc", '#include "CommonTools/UtilAlgos/interface/TFileService.h"\n', '#include "TTree.h"', "include"),
 }
-ANCHOR_TEXTS = sorted({a for t in (ATLAS_REGIONS, CMS_REGIONS) for v in t.values() for a in (v[1].strip(), v[2].strip())})
+ANCHOR_TEXTS = sorted({a.replace("first:", "") for t in (ATLAS_REGIONS, CMS_REGIONS) for v in t.values() for a in (v[1], v[2])})
 
 
 def regions_for(backend: str):
@@ -75,8 +76,13 @@ def regions_for(backend: str):
 
 def cut(text: str, start: str, end: str) -> Optional[Tuple[str, str, str]]:
     i = text.find(start)
-    j = text.rfind(end)
-    if i < 0 or j < 0 or j < i + len(start):
+    if i < 0:
+        return None
+    if end.startswith("first:"):
+        j = text.find(end[6:], i + len(start))
+    else:
+        j = text.rfind(end)
+    if j < 0 or j < i + len(start):
         return None
     return text[: i + len(start)], text[i + len(start) : j], text[j:]
 
@@ -244,13 +250,14 @@ def gen_line(rng: random.Random, stats: Dict[str, int]) -> str:
                      ("non-ascii", r"[^\x00-\x7f]"), ("newline", r"[\n\r]"), ("empty-or-blank", r"^\s*$")):
         if re.search(pat, s):
             stats[tag] = stats.get(tag, 0) + 1
-    if any(a and a in s for a in ANCHOR_TEXTS):
+    if any(a in s for a in ANCHOR_TEXTS) or "\n{" in s:
         return "x"
     return s
 
 
 def gen_block(rng: random.Random, fields: List[str], stats: Dict[str, int]) -> Dict[str, Any]:
-    b: Dict[str, Any] = {"metadata_type": "inject_code", "name": rng.choice(NAMES)}
+    nm = rng.choice(NAMES) if rng.random() < 0.25 else f"blk{rng.randint(0, 10**6)}"
+    b: Dict[str, Any] = {"metadata_type": "inject_code", "name": nm}
     k = rng.random()
     chosen = fields if k < 0.15 else [f for f in fields if rng.random() < rng.choice([0.2, 0.5, 0.8])]
     for f in chosen:
@@ -281,17 +288,17 @@ def gen_md(rng: random.Random, fields: List[str], stats: Dict[str, int]) -> List
             src[f] = list(src.get(f, [])) + [gen_line(rng, stats)] if rng.random() < 0.7 else list(src.get(f, []))[:-1]
             md.append(src)
             stats["kind:same-name-edit"] = stats.get("kind:same-name-edit", 0) + 1
-        elif k < 0.33:  # unknown field
+        elif k < 0.31:  # unknown field
             b = gen_block(rng, fields, stats)
             b[rng.choice(["link_libraries_f", "includes", "Name", "body_include_files"])] = ["x"]
             md.append(b)
             stats["kind:unknown-field"] = stats.get("kind:unknown-field", 0) + 1
-        elif k < 0.37:  # no name
+        elif k < 0.33:  # no name
             b = gen_block(rng, fields, stats)
             del b["name"]
             md.append(b)
             stats["kind:no-name"] = stats.get("kind:no-name", 0) + 1
-        elif k < 0.42:
+        elif k < 0.40:
             md.append({"metadata_type": "inject_code"})
             stats["kind:empty"] = stats.get("kind:empty", 0) + 1
         elif k < 0.46:  # type-confused but carried faithfully: a str where a list is expected / a list as name
@@ -410,7 +417,7 @@ def check(tier: str, seed: int, t0: float, build: core.BuildStatus) -> int:
     oc = core.Outcome()
     refusal = build.gen_errors.get("Templates.v")
     rng = random.Random(f"c14-{seed}")
-    n_random = 450 if tier == "quick" else 6000
+    n_random = 1500 if tier == "quick" else 30000
 
     # what the translator read (only used to name the query-side values and the field list; when it refused,
     # the hand-written field list is used and only the oracle runs)
@@ -467,6 +474,8 @@ def check(tier: str, seed: int, t0: float, build: core.BuildStatus) -> int:
 
                 small = shrink(md, fails)
                 rs = run_impl(backend, src, small)
+                vs = oracle(backend, fields, small, rs, baseline(backend, src, small))
+                what = vs[1] if vs else what
                 oc.violations.append(core.Violation(key=key, what=f"{backend}: {what}", replay={
                     "kind": "inject", "backend": backend, "query": src, "metadata": small, "fields": fields,
                     "implementation": list(rs[:2]) if rs[0] == "error" else {fn: t for fn, t in rs[1].items() if fn in {v[0] for v in regions_for(backend).values()}},
